@@ -32,6 +32,43 @@ def parseArgs : Nat → List String → Option (List Ty × List String)
       | none => none
     | none => none
 
+/-- `n` candidates: `<k> <id> <func type>` with k = s | d | S (short circuit) | p (static, pending forward) -/
+def parseNCands : Nat → List String → Option (List Cand × List String)
+  | 0, rest => some ([], rest)
+  | n + 1, k :: id :: rest =>
+    match TyEng.parseTyFuel (rest.length + 1) rest with
+    | some (.func g ps q r, rest') =>
+      match parseNCands n rest' with
+      | some (cs, rest'') =>
+        some ({ id := id.toNat!, kind := if k == "d" then .dynamic else .static, pending := k == "p",
+                spec := { gens := g, ps := ps, nreq := q, ret := r, shortCircuit := k == "S" } } :: cs, rest'')
+      | none => none
+    | _ => none
+  | _, _ => none
+
+/-- `n` scope levels, innermost first: `<height> <recourse: - | func type> <ncands> <cands…>` -/
+def parseLevels : Nat → List String → Option (List ScopeLevel)
+  | 0, [] => some []
+  | 0, _ => none
+  | _ + 1, [] => none
+  | n + 1, hgt :: toks =>
+    let rec_ : Option (Option Ty × List String) :=
+      match toks with
+      | "-" :: rest => some (none, rest)
+      | _ =>
+        match TyEng.parseTyFuel (toks.length + 1) toks with
+        | some (t, rest) => some (some t, rest)
+        | none => none
+    match rec_ with
+    | some (rt, cnt :: rest) =>
+      match parseNCands cnt.toNat! rest with
+      | some (cs, rest') =>
+        match parseLevels n rest' with
+        | some ls => some ({ funcs := cs.map (fun c => { c with height := hgt.toNat! }), recourse := rt, height := hgt.toNat! } :: ls)
+        | none => none
+      | none => none
+    | _ => none
+
 end OvlEng
 
 def ovlEngine (f : String) (args : List String) : String :=
@@ -47,6 +84,17 @@ def ovlEngine (f : String) (args : List String) : String :=
         | .noOverload => "nooverload"
       | none => "bad-op"
     | none => "bad-op"
+  | "resolve_at", n :: rest =>
+    match OvlEng.parseArgs n.toNat! rest with
+    | some (as, nl :: rest') =>
+      match OvlEng.parseLevels nl.toNat! rest' with
+      | some ls =>
+        match resolveAt ls as with
+        | .ok i => s!"ok {i}"
+        | .ambiguous _ _ => "ambiguous"
+        | .noOverload => "nooverload"
+      | none => "bad-op"
+    | _ => "bad-op"
   | _, _ => "bad-op"
 
 end XrayDriver
